@@ -4,7 +4,7 @@
     Model/Date.v, Model/Time.v, Model/DateTime.v, Model/C03.v (trapping arithmetic: [Val]/[Panic]). *)
 From Coq Require Import ZArith List Bool.
 From V Require Import Base.Int Base.IO Spec.Gregorian Model.TimeDelta Model.DateTime Model.C03 Proofs.C06 Proofs.C03.
-From V Require Model.Date Model.Time.
+From V Require Model.Date Model.Time Proofs.C03Headroom Proofs.C03Zone.
 Open Scope Z_scope.
 
 (** Vocabulary (Proofs/C03.v, Proofs/C06.v, Spec/Gregorian.v):
@@ -310,3 +310,46 @@ Theorem C03_zone_days_exact_partial : forall u off n, nvalid u -> -86400 < off <
      end).
 Proof. exact zone_days_exact_partial. Qed.
 Print Assumptions C03_zone_days_exact_partial.
+
+(* ---- the same for EVERY zone-aware value (no premise on the local reading): when the local reading
+        lies in the one-day headroom the code goes through the sentinel date words BEFORE_MIN /
+        AFTER_MAX; there the day shift is computed on the two literal words (Proofs/C03Headroom.v: the
+        same-year fast path swept over its 365 / 364 cases, the 400-year-cycle path by the argument of
+        C08AddDays.add_days_spec for the years MIN_YEAR-1 / MAX_YEAR+1) and the re-resolution in the zone
+        followed through the range filter (Proofs/C03Zone.v).  Result: the instant moved by n whole days
+        with the offset kept; refused exactly when the target instant or its local reading is not
+        representable. ---- *)
+Theorem C03_zone_days_exact : forall u off n, nvalid u -> -86400 < off < 86400 -> in_u64 n = true ->
+  (exists r, dz_checked_add_days (mk_dtz u off) n = Val r /\
+     match r with
+     | Some z => dz_off z = off /\ nvalid (dz_utc z) /\ inst (dz_utc z) = inst u + n * 86400000000000
+     | None => ~ (NS_MIN <= inst u + n * 86400000000000 <= NS_MAX /\
+                  NS_MIN <= inst u + n * 86400000000000 + off * G <= NS_MAX)
+     end) /\
+  (exists r, dz_checked_sub_days (mk_dtz u off) n = Val r /\
+     match r with
+     | Some z => dz_off z = off /\ nvalid (dz_utc z) /\ inst (dz_utc z) = inst u - n * 86400000000000
+     | None => ~ (NS_MIN <= inst u - n * 86400000000000 <= NS_MAX /\
+                  NS_MIN <= inst u - n * 86400000000000 + off * G <= NS_MAX)
+     end).
+Proof. exact V.Proofs.C03Zone.zone_days_exact. Qed.
+Print Assumptions C03_zone_days_exact.
+(* the day shift on the two sentinel words where it leaves their (out-of-range) year *)
+Theorem C03_headroom_add_days : forall k, in_i32 k = true ->
+  ((0 <? 366 + k) && (k <=? 0) = false ->
+   Date.add_days Date.D_BEFORE_MIN k =
+     Val (if dn_in_range (DN_MIN - 1 + k) then Some (V.Proofs.C08AddDays.date_of_dn (DN_MIN - 1 + k)) else None)) /\
+  ((0 <? 1 + k) && (k <=? 364) = false ->
+   Date.add_days Date.D_AFTER_MAX k =
+     Val (if dn_in_range (DN_MAX + 1 + k) then Some (V.Proofs.C08AddDays.date_of_dn (DN_MAX + 1 + k)) else None)).
+Proof. exact (fun k Hk => conj (V.Proofs.C03Headroom.add_days_BEFORE_MIN_slow k Hk) (V.Proofs.C03Headroom.add_days_AFTER_MAX_slow k Hk)). Qed.
+Print Assumptions C03_headroom_add_days.
+(* the headroom case is inhabited: MAX_UTC seen from +02:00 and MIN_UTC seen from -02:00 have a local
+   reading outside the range; one day inwards is exact, one day outwards is refused *)
+Example C03_zone_days_headroom_examples :
+  (inst NDT_MAX + 7200 * G >? NS_MAX) = true /\ (inst NDT_MIN + (-7200) * G <? NS_MIN) = true /\
+  V.Proofs.C03Zone.inst_of (dz_checked_sub_days (mk_dtz NDT_MAX 7200) 1) = Some (NS_MAX - DAYNS) /\
+  V.Proofs.C03Zone.inst_of (dz_checked_add_days (mk_dtz NDT_MIN (-7200)) 1) = Some (NS_MIN + DAYNS) /\
+  dz_checked_add_days (mk_dtz NDT_MAX 7200) 1 = Val None /\ dz_checked_sub_days (mk_dtz NDT_MIN (-7200)) 1 = Val None.
+Proof. exact V.Proofs.C03Zone.zone_days_headroom_examples. Qed.
+Print Assumptions C03_zone_days_headroom_examples.
